@@ -89,7 +89,8 @@ def strategy(tier):
                                   gen_hier.twin_fill_case(tier, mirrors=True),
                                   gen_hier.twin_fill_case(tier, mirrors=True),
                                   gen_hier.twin_fill_case(tier, mirrors=True),
-                                  gen_hier.neg_universe_case(tier)))
+                                  gen_hier.neg_universe_case(tier),
+                                  gen_hier.facet_fill_case(tier)))
 
 
 def budget(tier):
